@@ -190,10 +190,34 @@ def systematic_sources(basic):
     nexts = ["-", "fixed", "same", "other"]
     steps = [0, 60, -30] if not basic else [0, 60, -45]
     forms = ["2009"] if basic else ["2009", "2009 Jul 15 3:00u", "2009 Dec 31 24:00", "2009 Jan 1 0:00s", "2009 Jul 1"]
+    # era boundaries 2 h and 5 h before / after (never on) a rule transition of 2009, expressed in all three time bases
+    import datetime as _dt
+    near_forms = {}
+    if not basic:
+        # (month, day, wall minutes, dst in force before) of the 2009 transitions of the two rule pairs
+        trans = {"N": [(3, 29, 120, 0), (10, 25, 180, 60)], "S": [(10, 4, 120, 0), (3, 15, 180, 60)]}
+        offs = {"N": 180, "S": -240}
+        for h in trans:
+            near_forms[h] = []
+            for mo, day, wall, dst in trans[h]:
+                utc = _dt.datetime(2009, mo, day) + _dt.timedelta(minutes=wall - offs[h] - dst)
+                for dh in (-5, -2, 2, 5):
+                    for sf in ("u", "s", ""):
+                        b = utc + _dt.timedelta(hours=dh)
+                        if sf == "s":
+                            b += _dt.timedelta(minutes=offs[h])
+                        elif sf == "":
+                            b += _dt.timedelta(minutes=offs[h] + (dst if dh < 0 else 60 - dst))
+                        near_forms[h].append("2009 %s %d %d:%02d%s" % (MON[b.month - 1], b.day, b.hour, b.minute, sf))
     sufs = ["", "s", "u"]
+    combos = list(itertools.product(sorted(hemis), nexts, steps, forms, sufs))
+    for h in sorted(near_forms):
+        for nf in near_forms[h]:
+            for nx in ("-", "same", "other"):
+                combos.append((h, nx, 60 if nx != "same" else 0, nf, ""))
     n = 0
-    for h, nx, step, form, suf in itertools.product(sorted(hemis), nexts, steps, forms, sufs):
-        if n % 3 != (0 if suf == "" else (1 if suf == "s" else 2)) and len(forms) > 1 and form not in ("2009",):
+    for h, nx, step, form, suf in combos:
+        if n % 3 != (0 if suf == "" else (1 if suf == "s" else 2)) and len(forms) > 1 and form not in ("2009",) and form in forms:
             # thin out: not every suffix with every long UNTIL form
             n += 1
             continue
